@@ -198,9 +198,11 @@ def program(draw, cols, n, max_groups=3, max_conds=3):
         else:
             groups.append([draw(condition(cols, n)) for _ in range(k)])
     flat = ngroups == 1 and draw(st.booleans())
-    return {"flat": flat, "groups": groups}
+    return {"flat": flat, "groups": groups, "conds_as_lists": draw(st.integers(0, 3)) == 0}
 
 
 def to_api(prog):
-    gs = [[(c["col"], c["op"], build_const(c["val"])) for c in g] for g in prog["groups"]]
+    # a condition is a 3-tuple, or (what the repository's own tests write) a 3-element list
+    mk = list if prog.get("conds_as_lists") else tuple
+    gs = [[mk((c["col"], c["op"], build_const(c["val"]))) for c in g] for g in prog["groups"]]
     return gs[0] if prog["flat"] else gs
